@@ -147,8 +147,17 @@ def run(ctx, rep):
         # the validated value is the one produced by format_boot_sector
         if not any(('callsite', fbs[0][0]) in d.of_operand(a) for a in vt['args'][:1]):
             why.append('validate is not applied to the boot sector produced by format_boot_sector')
+        # the result may first be re-labelled with map_err and then handled by `?`: the closure's value is what is forwarded
+        mapped_closure = None
+        for b, t in calls:
+            if (t.get('callee') or '').endswith('Result::map_err') and ('callsite', vb) in d.of_operand(t['args'][0]):
+                mapped_closure = [tk[1] for tk in d.of_operand(t['args'][1]) if tk[0] == 'closure']
+                if b in lab and lab[b]['status'] == 'labelled':
+                    vedges = set(lab[b]['ok'])
+                elif vb in lab and lab[vb]['status'] == 'labelled':
+                    vedges = set(lab[vb]['ok'])
         # the switch on is_err / match of the validation result
-        for bi in F.reachable():
+        for bi in (F.reachable() if not vedges else []):
             tt = F.blocks[bi]['term']
             if tt['k'] != 'switch':
                 continue
@@ -164,14 +173,6 @@ def run(ctx, rep):
                 vedges = set(lab[vb]['ok'])
         if not vedges and vb in lab and lab[vb]['status'] == 'labelled':
             vedges = set(lab[vb]['ok'])
-        # ... or the result is first re-labelled with map_err and then handled by `?`
-        mapped_closure = None
-        if not vedges:
-            for b, t in calls:
-                if (t.get('callee') or '').endswith('Result::map_err') and ('callsite', vb) in d.of_operand(t['args'][0]) and \
-                        b in lab and lab[b]['status'] == 'labelled':
-                    vedges = set(lab[b]['ok'])
-                    mapped_closure = [tk[1] for tk in d.of_operand(t['args'][1]) if tk[0] == 'closure']
         if not vedges:
             why.append('no branch on the validation result')
     wsites = [(b, t) for b, t in calls if eff.fn_reaches_dev(F.name, b, 'W')]
